@@ -1,3 +1,34 @@
-"""Replay-file minimisation (program and schedule); see DESIGN.md 4.7."""
-def minimise(binary, path, budget_s=60):
-    return False
+"""Replay-file minimisation (program and schedule); see DESIGN.md 4.7.
+
+The work is done in-process by the simulator binary (TestMinimise: lenient replay of candidate
+programs / traces, accepted only when the same violation class shows up; the result is verified
+by two strict replays). This wrapper runs it, keeps the original next to the result and returns
+a short report. Any failure leaves the unminimised replay file in place."""
+import json
+import os
+import subprocess
+
+
+def minimise(binary, path, budget_s=60, env=None):
+    e = dict(env or os.environ)
+    out = path + '.min'
+    e.update(SIM_REPLAY=path, SIM_MIN_OUT=out, SIM_MIN_BUDGET_S=str(budget_s))
+    try:
+        p = subprocess.run([binary, '-test.run', '^TestMinimise$', '-test.timeout', '30m', '-test.cpu', '1'], env=e, stdout=subprocess.PIPE, stderr=subprocess.STDOUT, text=True, timeout=budget_s + 200)
+    except subprocess.TimeoutExpired:
+        return dict(ok=False, error='timeout')
+    rep = dict(ok=False)
+    for ln in p.stdout.splitlines():
+        if ln.startswith('MINIMISE '):
+            parts = ln.split(' ', 2)
+            rep = json.loads(parts[2])
+            rep['ok'] = parts[1] == 'true'
+    if rep.get('ok') and os.path.exists(out):
+        orig = json.load(open(path))
+        new = json.load(open(out))
+        new['Reproducible'] = True
+        new['Unminimised'] = dict(Program=orig['Program'], Trace=orig['Trace'], LogHash=orig['LogHash'], Detail=orig['Detail'])
+        json.dump(new, open(path, 'w'), indent=1)
+    if os.path.exists(out):
+        os.remove(out)
+    return rep
